@@ -67,6 +67,9 @@ MEMBERS = [
      ("shift_by{s}", [("amount", "pos"), ("times", "opt")])),
     ("    def ratio_of{s}(self, part: float, whole: float = 1.0) -> float:\n        '''Ratio.'''\n        return part / whole\n",
      ("ratio_of{s}", [("part", "pos"), ("whole", "opt")])),
+    # a parameter annotated with a type of the user's own module (an Enum): resolvable only in that module's namespace
+    ("    def set_mode{s}(self, mode: Mode = Mode.FAST) -> str:\n        '''Sets the mode.'''\n        return mode.name\n",
+     ("set_mode{s}", [("mode", "opt")])),
     # inherited public methods overridden without a docstring of their own: the description is the inherited one (inspect.getdoc)
     ("    def lock(self) -> None:\n        super().lock()\n", "override:lock"),
     ("    async def flush(self, return_exceptions: bool = False) -> None:\n        await super().flush(return_exceptions)\n", "override:flush"),
@@ -108,7 +111,7 @@ def build_class(case: dict):
     if "members" not in case:
         return base, table, private, docs
     s = case.get("suffix", "")
-    src = ("from __future__ import annotations\n" if case.get("postponed") else "") + "from typing import Optional, Union\nclass Mid(Base):\n    '''Intermediate.'''\n    pass\n\n"
+    src = ("from __future__ import annotations\n" if case.get("postponed") else "") + "import enum\nfrom typing import Optional, Union\nclass Mode(enum.Enum):\n    FAST = 'fast'\n    SLOW = 'slow'\n\nclass Mid(Base):\n    '''Intermediate.'''\n    pass\n\n"
     parent = "Mid" if case.get("depth", 1) == 2 else "Base"
     src += f"class GenPool({parent}):\n    '''Generated pool class.'''\n"
     for i in case["members"]:
@@ -160,7 +163,7 @@ class C16Engine(Engine):
             "subclass, or width < 40 or > 200. Distinct = case hash.")
     assumptions = ["the session is driven in-process through a real asyncio.StreamReader and a recording writer (vt/ctl/harness.py)",
                    "API table written from the documentation, independent of inspect.getmembers"]
-    bounds = {"widths": "1..1000", "generated members": "<=4 of 23 templates", "subclass depth": "<=2"}
+    bounds = {"widths": "1..1000", "generated members": "<=4 of 24 templates", "subclass depth": "<=2"}
 
     def strategies(self, tier: str):
         return [("default", st.binary(min_size=NB, max_size=NB).map(decode), 1200 if tier == "quick" else 30000)]
@@ -288,7 +291,7 @@ class C16Engine(Engine):
             calls = {"extra_count": ("extra-count{s} 4 --label z", "4z"), "toggle_thing": ("toggle-thing{s} --fast", "True"),
                      "sum_all": ("sum-all{s} 1 2 3", "6"), "wait_a_bit": ("wait-a-bit{s} --rounds 3", "3"), "extra_info": ("extra-info{s}", "info"),
                      "knob": ("knob{s} 5", "ok"), "scale": ("scale{s} 21 --offset 1", "43"), "filter": ("filter{s}- --pattern q", "q"),
-                     "deep__scan": ("deep--scan{s} 2", "2"), "shift_by": ("shift-by{s} 3 --times 2", "6"), "tag_it": ("tag-it{s} ab --times 2", "abab"), "maybe_num": ("maybe-num{s} --n 5 --label q", "5-q"), "ratio_of": ("ratio-of{s} 1 --whole 4", "0.25")}
+                     "deep__scan": ("deep--scan{s} 2", "2"), "shift_by": ("shift-by{s} 3 --times 2", "6"), "tag_it": ("tag-it{s} ab --times 2", "abab"), "maybe_num": ("maybe-num{s} --n 5 --label q", "5-q"), "ratio_of": ("ratio-of{s} 1 --whole 4", "0.25"), "set_mode": ("set-mode{s} --mode slow", "SLOW")}
             for name in sorted(table):
                 base = name[: len(name) - len(sfx)] if sfx and name.endswith(sfx) else name
                 key = base.rstrip("_") if base.rstrip("_") in calls else base
